@@ -973,6 +973,31 @@ def text_level(case, st=None):
             lines.append(" ".join(["xdoc-attrs"] + [enc_str(x) for x in wattrs]))
             lines.append(" ".join(["xdoc-texts"] + [enc_str(x) for x in wtexts]))
             obs += ["(see next line)", own]
+        # ---- the same under `encoding="ascii"`: every character the encoding lacks is a decimal character reference
+        try:
+            adoc = build_result(case, "direct").serialize(format="xml", encoding="ascii")
+            aown = parse_canon(adoc, "xml", "bytes")
+            rattrs, rtexts = xml_raw_tokens(adoc.decode("ascii"))
+        except Exception as e:  # noqa: BLE001
+            lines += ["const " + err_name(e)] * 4
+            obs += [err_name(e)] * 4
+        else:
+            try:
+                dattrs, dtexts = xml_decoded(adoc)
+                oa = " ".join(["="] + ["ok:" + enc_str(x) for x in dattrs])
+                ot = " ".join(["="] + ["ok:" + enc_str(x) for x in dtexts])
+            except ET.ParseError:
+                oa = " ".join(["="] + [py_xml_token("a", x) for x in rattrs])
+                ot = " ".join(["="] + [py_xml_token("t", x) for x in rtexts])
+            lines.append(" ".join(["xattr-read"] + [enc_str(x) for x in rattrs]))
+            lines.append(" ".join(["xtext-read"] + [enc_str(x) for x in rtexts]))
+            obs += [oa, ot]
+            wattrs, wtexts = xml_doc_strings(case)
+            # attribute values: quoteattr, then the codec's xmlcharrefreplace (attributes under an encoding are not modelled)
+            lines.append("echo XATTR " + " ".join(enc_str(_sax_quoteattr(x).encode("ascii", "xmlcharrefreplace").decode("ascii")) for x in wattrs))
+            lines.append(" ".join(["xdoc-texts-ascii"] + [enc_str(x) for x in wtexts]))
+            obs += ["(see next line)", aown]
+            st["xtext_ascii_charrefs"] = sum(t.count("&#") for t in rtexts)
         # `quoteattr` itself (the standard library function rdflib's writer relies on)
         wattrs = xml_doc_strings(case)[0]
         lines.append(" ".join(["xattr-write"] + [enc_str(x) for x in wattrs]))
